@@ -1,8 +1,88 @@
-(* C05 -- statements only; proofs in Proofs/LimitProofs.v. *)
+(* C05 -- fan-in / fan-out limiting and register insertion preserve function.
+   Statements only; proofs in Proofs/LimitProofs.v.  Models: Model/Limit.v (run validators over the regenerated
+   Gen_limit tables).  `closed` is the networkx representation invariant "edge endpoints are nodes". *)
 From stdpp Require Import strings gmap sets.
 From CG Require Import Model.Limit Proofs.LimitProofs.
 Open Scope string_scope.
 
+(* obligation on the tables regenerated from tx.py: for every multi-input type t, gatemap t is the non-inverting
+   two-operand gate of t's family (and, or, xor); no other keys; limit_fanout's helper is a buffer; both guards are k < 2 *)
 Theorem C05_tables_ok : limit_tables_ok gen_limit_tables = true.
 Proof. vm_compute. reflexivity. Qed.
 Print Assumptions C05_tables_ok.
+
+(* limit_fanin: every execution accepted by the validator (any visiting order of the nodes, any choice of the two
+   operands popped in each iteration) returns a circuit with the same inputs and outputs, fan-in at most k everywhere,
+   and exactly the behaviours of c on the nodes of c (both directions).  No acyclicity or lint hypothesis. *)
+Theorem C05_limit_fanin : ∀ C k steps C', closed (c_g C) → limit_fanin_run C k steps = Ok C' →
+  2 ≤ k ∧ inputs (c_g C') = inputs (c_g C) ∧ outputs (c_g C') = outputs (c_g C) ∧
+  (∀ n, size (fanin (c_g C') n) ≤ k) ∧ equiv_on (dom (c_g C)) (c_g C) (c_g C') ∧
+  closed (c_g C') ∧ dom (c_g C) ⊆ dom (c_g C') ∧ c_bbs C' = c_bbs C ∧ c_name C' = c_name C.
+Proof. intros C k steps C' Hcl H. destruct (limit_fanin_spec _ C k steps C' C05_tables_ok Hcl H) as (?&?&?&?&?&?&?&?&?). done. Qed.
+Print Assumptions C05_limit_fanin.
+
+Theorem C05_limit_fanin_rejects : ∀ C k steps, k < 2 → limit_fanin_run C k steps = Raise ValueError.
+Proof. intros. by apply limit_fanin_rejects; [exact C05_tables_ok|]. Qed.
+Print Assumptions C05_limit_fanin_rejects.
+
+Theorem C05_limit_fanout : ∀ C k steps C', closed (c_g C) → limit_fanout_run C k steps = Ok C' →
+  2 ≤ k ∧ inputs (c_g C') = inputs (c_g C) ∧ outputs (c_g C') = outputs (c_g C) ∧
+  (∀ n, size (fanout (c_g C') n) ≤ k) ∧ equiv_on (dom (c_g C)) (c_g C) (c_g C') ∧
+  closed (c_g C') ∧ dom (c_g C) ⊆ dom (c_g C') ∧ c_bbs C' = c_bbs C ∧ c_name C' = c_name C.
+Proof. intros C k steps C' Hcl H. destruct (limit_fanout_spec _ C k steps C' C05_tables_ok Hcl H) as (?&?&?&?&?&?&?&?&?). done. Qed.
+Print Assumptions C05_limit_fanout.
+
+Theorem C05_limit_fanout_rejects : ∀ C k steps, k < 2 → limit_fanout_run C k steps = Raise ValueError.
+Proof. intros. by apply limit_fanout_rejects; [exact C05_tables_ok|]. Qed.
+Print Assumptions C05_limit_fanout_rejects.
+
+(* insert_registers (default flop, ports, suffix), for every iteration order of the graph: outputs unchanged, inputs gain at
+   most the clock, and with every inserted flop transparent (v ff.q = v ff.d) the result has exactly the behaviours of c
+   on the nodes of c: a transparent behaviour of the result IS a behaviour of c, and every behaviour of c extends to one. *)
+Theorem C05_insert_registers : ∀ C s order C', closed (c_g C) → bb_free C → insert_registers C s order = Ok C' →
+  outputs (c_g C') = outputs (c_g C) ∧ inputs (c_g C) ⊆ inputs (c_g C') ∧ inputs (c_g C') ⊆ inputs (c_g C) ∪ {[clk_name]} ∧
+  (∀ v', consistent (c_g C') v' → transparent C' v' → ∃ v, consistent (c_g C) v ∧ agrees (dom (c_g C)) v v') ∧
+  (∀ v, consistent (c_g C) v → ∃ v', consistent (c_g C') v' ∧ transparent C' v' ∧ agrees (dom (c_g C)) v v').
+Proof.
+  intros C s order C' Hcl Hbb H. destruct (insert_registers_spec C s order C' Hcl Hbb H) as (_ & _ & Ho & Hi & Hi' & HA & HB).
+  split_and!; try done.
+  - intros v' Hv' Ht. exists v'. split; [by apply HA|by intros ? ?].
+  - intros v Hv. destruct (HB v Hv) as (v' & ? & ? & Ha). exists v'. split_and!; try done. intros n Hn. symmetry. by apply Ha.
+Qed.
+Print Assumptions C05_insert_registers.
+
+(* the statement of DESIGN.md appendix C additionally asks for lint-cleanness of the result (C20's second clause);
+   that conjunct is not proved here -- the oracle of Run_C05 checks `lint_cleanb` on every returned circuit *)
+Definition C05_limit_fanin_with_lint : Prop := ∀ C k steps C', 2 ≤ k → lint_clean C → closed (c_g C) →
+  limit_fanin_run C k steps = Ok C' →
+  inputs (c_g C') = inputs (c_g C) ∧ outputs (c_g C') = outputs (c_g C) ∧
+  (∀ n, size (fanin (c_g C') n) ≤ k) ∧ equiv_on (dom (c_g C)) (c_g C) (c_g C') ∧ lint_clean C'.
+Definition C05_limit_fanout_with_lint : Prop := ∀ C k steps C', 2 ≤ k → lint_clean C → closed (c_g C) →
+  limit_fanout_run C k steps = Ok C' →
+  inputs (c_g C') = inputs (c_g C) ∧ outputs (c_g C') = outputs (c_g C) ∧
+  (∀ n, size (fanout (c_g C') n) ≤ k) ∧ equiv_on (dom (c_g C)) (c_g C) (c_g C') ∧ lint_clean C'.
+
+(* the oracle's verdict is a statement about `consistent`: a passed check implies the equivalence of the theorems above *)
+Theorem C05_oracle_sound : ∀ c c', equiv_check c c' = true → equiv_on (dom c) c c'.
+Proof. exact equiv_check_sound. Qed.
+Print Assumptions C05_oracle_sound.
+
+(* ---- non-vacuity: accepted runs exist on concrete circuits where something happens ---- *)
+Definition ex_in : Circuit :=
+  {| c_name := "t"; c_bbs := ∅;
+     c_g := {[ "a" := mk_node Input false ∅; "b" := mk_node Input false ∅; "c" := mk_node Input false ∅;
+               "g_limit_fanin_0" := mk_node Input false ∅;
+               "g" := mk_node Xnor true {[ "a"; "b"; "c"; "g_limit_fanin_0" ]} ]} |}.
+Example C05_fanin_run : closed (c_g ex_in) ∧
+  ∃ C', limit_fanin_run ex_in 2 [("g", "a", "b"); ("g", "c", "g_limit_fanin_0_0")] = Ok C' ∧ (size (dom (c_g C')) =? 7)%nat = true.
+Proof. split; [apply closedb_spec; vm_compute; reflexivity|]. apply ok_with_spec. vm_compute. reflexivity. Qed.
+Definition ex_out : Circuit :=
+  {| c_name := "t"; c_bbs := ∅;
+     c_g := {[ "a" := mk_node Input false ∅; "x" := mk_node Not true {[ "a" ]}; "y" := mk_node Buf true {[ "a" ]};
+               "z" := mk_node And true {[ "a"; "x" ]} ]} |}.
+Example C05_fanout_run : closed (c_g ex_out) ∧
+  ∃ C', limit_fanout_run ex_out 2 [("a", "x", "z")] = Ok C' ∧ (size (dom (c_g C')) =? 5)%nat = true.
+Proof. split; [apply closedb_spec; vm_compute; reflexivity|]. apply ok_with_spec. vm_compute. reflexivity. Qed.
+Example C05_regs_run : bb_free ex_out ∧
+  ∃ C', insert_registers ex_out 1 ["a"; "x"; "y"; "z"] = Ok C' ∧ bool_decide (dom (c_bbs C') = {[ "ff_x"; "ff_y" ]}) = true.
+Proof. split; [reflexivity|]. apply ok_with_spec. vm_compute. reflexivity. Qed.
